@@ -216,10 +216,10 @@ class NpProxy:
 
     # elementwise numerics
     def round(self, x, decimals=0, **k):
-        if _has_sym(x):
+        if _has_sym(x) or (isinstance(x, _np.ndarray) and x.dtype == object):
             if _is_sym(x):
                 return round(x, decimals)
-            return _map(lambda e: round(e, decimals) if isinstance(e, SymReal) else _np.round(e, decimals), x)
+            return _map(lambda e: round(e, decimals) if isinstance(e, SymReal) else _np.round(float(e), decimals), x)
         return _np.round(x, decimals, **k)
 
     around = round
